@@ -1004,6 +1004,24 @@ impl<'b> InnerBucket<'b> {
     }
 }
 
+#[cfg(feature = "verif-hooks")]
+impl<'b> InnerBucket<'b> {
+    /// The nested buckets opened or created by this transaction (name, bucket).
+    pub(crate) fn verif_children(&self) -> Vec<(Vec<u8>, Rc<RefCell<InnerBucket<'b>>>)> {
+        let mut v: Vec<(Vec<u8>, Rc<RefCell<InnerBucket<'b>>>)> = self
+            .buckets
+            .iter()
+            .map(|(k, b)| (k.as_ref().to_vec(), b.clone()))
+            .collect();
+        v.sort_by(|a, b| a.0.cmp(&b.0));
+        v
+    }
+
+    pub(crate) fn verif_dirty(&self) -> bool {
+        self.dirty
+    }
+}
+
 pub const META_SIZE: usize = std::mem::size_of::<BucketMeta>();
 
 #[repr(C)]
